@@ -473,6 +473,7 @@ type Contract struct {
 	Ensures    []*Clause
 	Invariants map[int][]*Clause
 	LoopMods   map[int][]string
+	RepeatIf   map[int][]*Clause // loop N: repeat-only-if E — checked at every back edge, in the state at the end of the iteration
 	Asserts    []*Clause
 	Safety     map[string][]string // property -> classes ("*" = all)
 	Props      map[string]bool
@@ -653,6 +654,21 @@ func loadContractFile(cs *ContractSet, path, pkgPath string) error {
 					return fail(err)
 				}
 				cur.Invariants[n] = append(cur.Invariants[n], &Clause{Kind: "invariant", Props: props, Label: label, Expr: e, Text: r, Loop: n, Line: ln})
+			case "repeat":
+				// loop N: repeat-only-if [label] E   (m[3] starts with "-only-if")
+				r0 := strings.TrimSpace(strings.TrimPrefix(m[3], "-only-if"))
+				props, label, r := parseLabel(r0)
+				e, err := parseSpec(r)
+				if err != nil {
+					return fail(err)
+				}
+				if cur.RepeatIf == nil {
+					cur.RepeatIf = map[int][]*Clause{}
+				}
+				for _, p := range props {
+					cur.Props[p] = true
+				}
+				cur.RepeatIf[n] = append(cur.RepeatIf[n], &Clause{Kind: "repeat-only-if", Props: props, Label: label, Expr: e, Text: r, Loop: n, Line: ln})
 			default:
 				return fail(fmt.Errorf("unknown loop clause %s", m[2]))
 			}
